@@ -80,5 +80,15 @@ CLAIMED["C05"] = dict(
          "containing h3 next to http/1.1 selects h3 and is then refused by the acceptor rather than served over http/1.1 - consistent "
          "with 'HTTP/3 is never selected on TCP'; TCP clients do not offer h3.",
 )
+CLAIMED["C13"] = dict(
+    text="Unbounded Lean theorems: every string survives the round trip through an escaped basic-string lexeme as the endpoint reads "
+         "it (decode_encode_basic, all Unicode scalar values and control characters); literal and plain basic strings are taken "
+         "verbatim (quotes, backslashes, surrounding spaces preserved); empty or non-string values are refused; the registry accepts a "
+         "token iff it is base64(user:password) of a listed pair and base64 is injective, so nothing else is accepted; Settings "
+         "validation refuses exactly the documented start-up situations. Tied to settings.rs / registry_based.rs / client_config.rs / "
+         "the setup wizard by ~2.5k differential cases per run through the real deserialiser, authenticator, exporter and Core::new.",
+    note="Trusted: Lean kernel, harness/door, toml_edit (multi-line strings, its own encoder used by the wizard and the exporter - "
+         "their round trips are run, not proved), certificate loading (rustls-pki-types) for the TLS-host refusals.",
+)
 NOT_CLAIMED = {p: "not yet built in this framework (planned, see DESIGN.md section 5)" for p in
-               ["C01", "C02", "C07", "C08", "C09", "C10", "C13", "C14", "C16", "C17", "C18", "C19", "C20"]}
+               ["C01", "C02", "C07", "C08", "C09", "C10", "C14", "C16", "C17", "C18", "C19", "C20"]}
